@@ -71,6 +71,9 @@ MAPPING = """\
   not modelled: float rounding, dtypes, index / column labels, warnings, exceptions other than the division gate above."""
 
 
+__doc__ += "\nMAPPING (the assumptions)\n" + MAPPING + "\n"
+
+
 # ----------------------------------------------------------------------------------------------------------- types
 def ty_coq(t, path):
     if t == "Q":
@@ -265,7 +268,8 @@ class Tr:
                 a, b = self.widen(a, ty), self.widen(b, ty)
             if a.term == b.term:
                 return a
-            return Sc(ty, "(if %s then %s else %s)" % (c.term, a.term, b.term))
+            mark = ("param",) if ("param",) in (a.b, b.b) else None
+            return Sc(ty, "(if %s then %s else %s)" % (c.term, a.term, b.term), mark)
         self.err("the branches of a conditional yield %s and %s" % (self.show_ty(a), self.show_ty(b)), node)
 
     def widen(self, v, ty):
@@ -522,6 +526,8 @@ class Tr:
             self.err("call with keyword / starred arguments: %s" % src, e)
         f = e.func
         if isinstance(f, ast.Name):
+            if f.id in env:
+                self.err("call of the local %s" % f.id, e)
             if f.id == "len" and len(e.args) == 1:
                 v = self.expr(e.args[0], env, facts)
                 if isinstance(v, Ser) and not v.sq:
@@ -587,7 +593,7 @@ class Tr:
         if self.depth > 6:
             self.err("inlining too deep (recursion?)", node)
         params = [a.arg for a in fn.args.args]
-        if fn.args.vararg or fn.args.kwarg or fn.args.kwonlyargs or fn.args.defaults:
+        if fn.args.vararg or fn.args.kwarg or fn.args.kwonlyargs or fn.args.defaults or fn.decorator_list:
             self.err("signature of %s" % fn.name, node)
         if method:
             if not params or params[0] != "self":
@@ -627,6 +633,8 @@ class Tr:
             return
         if isinstance(tgt, ast.Subscript) and isinstance(tgt.value, ast.Name) and ast.unparse(tgt.slice) == ":":
             old = env.get(tgt.value.id)                      # r[:] = k on a per-column Series
+            if isinstance(old, Sc) and old.b == ("param",):
+                self.err("%s[:] = ... updates in place an object the caller can see" % tgt.value.id, node)
             if isinstance(old, Sc) and old.ty in ("VQ", "VZ") and isinstance(v, Sc) and v.ty == "Z":
                 k = Sc(ELEM[old.ty], v.term) if old.ty == "VZ" else Sc("Q", self.to_q(v))
                 env[tgt.value.id] = Sc(old.ty, "(map (fun _ => %s) %s)" % (k.term, old.term))
@@ -759,7 +767,7 @@ def param_value(name, ty, binders, lets):
         return Tup(items)
     if ty == "S":
         return Ser(name)
-    return Sc(ty, name)
+    return Sc(ty, name, b=("param",) if ty in VECTORS else None)
 
 
 def pattern(name, ty):
@@ -803,6 +811,21 @@ def gen_function(module, cls_name, fn_name, path, sig):
     body = "".join("  %s\n" % l for l in lets) + "  " + render(res)
     src = "\n".join("     " + l for l in cq(ast.unparse(fn)).split("\n"))
     return "(* %s\n%s *)\nDefinition %s %s %s : %s :=\n%s.\n" % (cq(what), src, name, ops, " ".join(binders), ty_coq(rty, path), body)
+
+
+def check_var_init(module):
+    """`self.ddof` is the constructor argument (the generated definitions take it as the parameter ddof : Z)"""
+    cls = find_class(module, "Var")
+    fns = [n for n in cls.body if isinstance(n, ast.FunctionDef) and n.name == "__init__"]
+    ok = len(fns) == 1 and not fns[0].decorator_list and ast.unparse(fns[0].args) == "self, ddof=1" \
+        and [ast.unparse(x) for x in body_src(fns[0])] == ["self.ddof = ddof"]
+    if not ok:
+        raise KernelError("Var.__init__: expected `def __init__(self, ddof=1): self.ddof = ddof`")
+    others = [n for c in ast.walk(module) if isinstance(c, ast.ClassDef) and c.name == "Var" for n in ast.walk(c)
+              if isinstance(n, (ast.Assign, ast.AugAssign, ast.AnnAssign)) and "self.ddof" in
+              [ast.unparse(t) for t in (n.targets if isinstance(n, ast.Assign) else [n.target])]]
+    if len(others) != 1:
+        raise KernelError("Var: self.ddof is assigned outside __init__")
 
 
 def gen_accumulator(module):
@@ -858,6 +881,8 @@ def generate_all(module, paths=("s", "v")):
                     for path in paths:
                         if path in sigs:
                             parts.append(gen_function(module, cls_name, fn_name, path, sigs[path]))
+            if "Var" in classes:
+                check_var_init(module)
             res[stem] = (head + "\n" + "\n".join(parts), None)
         except KernelError as e:
             res[stem] = (None, str(e))
